@@ -62,19 +62,20 @@ Proof.
   - apply in_app_iff. right. apply in_app_iff. right. apply IHp2. exact Hy.
 Qed.
 
-Lemma pcore_x_lexvar p : pcore_x p = true -> lexdecls p = [] /\ vardecls p = [].
+Lemma hcore_x_lexvar c p : hcore_x c p = true -> lexdecls p = [] /\ vardecls p = [].
 Proof.
-  induction p; cbn [pcore_x lexdecls vardecls]; intros H; try discriminate; try (split; reflexivity).
+  induction p; cbn [hcore_x lexdecls vardecls]; intros H; try discriminate; try (split; reflexivity).
   - andbs. apply IHp. assumption.
-  - destruct d; try discriminate. cbn. apply IHp. exact H.
+  - destruct d; try discriminate; destruct c; try discriminate; cbn; apply IHp; exact H.
   - andbs. apply IHp3. assumption.
   - andbs. apply IHp3. assumption.
   - destruct nm; [discriminate|]. andbs. apply IHp2. assumption.
 Qed.
+Definition pcore_x_lexvar := hcore_x_lexvar false.
 
 Lemma pcore_x_allnames p : pcore_x p = true -> forall x, In x (allnames p) -> In x (headdecls p) \/ In x (default_names p).
 Proof.
-  induction p; cbn [pcore_x allnames headdecls default_names]; intros H y Hy; try discriminate.
+  induction p; cbn [hcore_x allnames headdecls default_names]; intros H y Hy; try discriminate.
   - destruct Hy.
   - andbs. destruct Hy as [<-|Hy]; [right; left; reflexivity|].
     destruct (IHp ltac:(assumption) y Hy) as [G|G]; [left; exact G|right; right; exact G].
@@ -113,7 +114,8 @@ Proof. intros A Hn. rewrite (final_push a z n names A Hn), (final_push a z n nam
    content has run (state a2), it is exited and the continuation k runs *)
 Section Nested.
   Variables (k : prog) (V : list Z).      (* V: the var-like names the scope lets through to the parent *)
-  Hypothesis IHk : run_ok k.
+  Variable c : bool.
+  Hypothesis IHk : run_ok_gen c k.
 
   Lemma after_scope a fr pr rest a2 B' prB P' rest1 names ts_b n_b Nb :
     AInv a ((fr, pr) :: rest) ->
@@ -132,8 +134,8 @@ Section Nested.
     (forall x, In x (below V (B', prB)) -> var_ok x ((fr, pr) :: rest)) ->
     (forall x, In x (vardecls k) -> var_ok x ((fr, pr) :: rest)) ->
     NoDup (headdecls k) ->
-    (forall x, In x (headdecls k) -> In x (pvar pr) /\ ~ In x (dnames fr) /\ ~ In (UPend x) (fund fr)
-                                     /\ ~ In x (below V (B', prB)) /\ ~ In x Nb) ->
+    (forall x, In x (headdecls k) -> hk c pr x /\ ~ In x (dnames fr) /\ (c = false -> ~ In (UPend x) (fund fr))
+                                     /\ ~ In x (below V (B', prB)) /\ (c = false -> ~ In x Nb)) ->
     spec_ok k = true ->
     exists a' fr' rest',
       arun a2 (EExit :: linearise k) = ARun a' /\ AInv a' ((fr', pr) :: rest') /\
@@ -163,7 +165,7 @@ Section Nested.
     { exact Hndh. }
     { intros y Hy. destruct (Hhead y Hy) as (Q1 & Q2 & Q3 & Q4 & Q5). split; [exact Q1|]. split.
       - rewrite Edn. intros Hi. destruct (Gpb y Hi) as [H|H]; contradiction.
-      - intros Hi. destruct (E4 y Hi) as [H|[H|H]]; [apply Q3; apply Gpu; exact H|apply Q5; apply HNb; left; exact H|apply Q5; apply HNb; right; exact H]. }
+      - intros Hc Hi. destruct (E4 y Hi) as [H|[H|H]]; [apply (Q3 Hc); apply Gpu; exact H|apply (Q5 Hc); apply HNb; left; exact H|apply (Q5 Hc); apply HNb; right; exact H]. }
     { exact Hok. }
     assert (Efid : fid P'' = fid fr) by (cbn in Hs3; injection Hs3 as H _; exact H).
     rewrite (env_of_shape _ _ Hs3), (func_of_shape _ _ Hs3), Efid, N3, Nb' in F, N.
@@ -188,22 +190,23 @@ Section Nested.
 End Nested.
 
 (* ---- Block ------------------------------------------------------------------------------------------------------ *)
-Lemma run_ok_block b k :
-  headdecls b = [] -> (forall x, In x (headdecls k) -> ~ In x (allnames b)) -> run_ok b -> run_ok k -> run_ok (Block b k).
+Lemma run_ok_block c b k :
+  headdecls b = [] -> (forall x, In x (headdecls k) -> ~ In x (vardecls b) /\ (c = false -> ~ In x (allnames b))) ->
+  run_ok b -> run_ok_gen c k -> run_ok_gen c (Block b k).
 Proof.
   intros Hb0 Hkfresh IHb IHk a fr pr rest A Hnd Hlex Hvar Hndh Hhead Hok.
   cbn [headdecls] in Hndh, Hhead.
   cbn [lexdecls] in Hnd, Hlex. cbn [vardecls] in Hvar. cbn [spec_ok] in Hok.
   apply andb_true_iff in Hok. destruct Hok as [Hok Hokk]. apply andb_true_iff in Hok. destruct Hok as [Hsc Hokb].
   destruct (scope_ok_spec [] b Hsc) as (Hndb & Hlv & _).
-  set (prB := mkPr (lexdecls b) [] false).
+  set (prB := mkPr (lexdecls b) [] false []).
   destruct (L_enter a ((fr, pr) :: rest) false prB A) as (a1 & H1 & A1 & El & En).
   { intros y _ []. }
   set (B0 := mkF (anext a) false [] [] O O) in *.
   destruct (IHb a1 B0 prB ((fr, pr) :: rest) A1 Hndb) as (a2 & B' & z1 & R2 & A2 & G2 & P1b & P2b & P3b & P4b & P5b & F2 & N2).
   { intros y Hy. split; [exact Hy|intros []]. }
   { intros y Hy. cbn [var_ok fisfunc B0]. split.
-    - unfold pnames. cbn [pvar plex prB app]. intros Hi. apply (Hlv y Hi Hy).
+    - unfold pall, pnames. cbn [pvar plex pfut prB app]. rewrite app_nil_r. intros Hi. apply (Hlv y Hi Hy).
     - apply Hvar. apply in_app_iff. left. exact Hy. }
   { rewrite Hb0. constructor. }
   { rewrite Hb0. intros y []. }
@@ -218,7 +221,7 @@ Proof.
   remember (resolve_m (env_of ((B0, prB) :: (fr, pr) :: rest)) (func_of ((B0, prB) :: (fr, pr) :: rest)) (fid B0) false (S (anext a)) b) as RB eqn:HeqRB.
   assert (Hle : (anext a <= snd RB)%nat).
   { rewrite <- N2. destruct A2 as [_ _ An _]. pose proof (An (B', prB) (or_introl eq_refl)) as H. cbn [fst] in H. lia. }
-  destruct (after_scope k (vardecls b) IHk a fr pr rest a2 B' prB P' rest1 (lexdecls b) (fst RB) (snd RB) (allnames b)
+  destruct (after_scope k (vardecls b) c IHk a fr pr rest a2 B' prB P' rest1 (lexdecls b) (fst RB) (snd RB) (allnames b)
               A A2 HfidB eq_refl Hs2)
     as (a' & fr' & rest' & R & A' & G & P1 & P2 & Pf & P3 & P4 & P5 & F & N).
   { rewrite Ebelow. exact Gp. }
@@ -233,7 +236,7 @@ Proof.
   { intros y Hy. apply Hvar. apply in_app_iff. right. exact Hy. }
   { exact Hndh. }
   { intros y Hy. destruct (Hhead y Hy) as (Q1 & Q2 & Q3). split; [exact Q1|]. split; [exact Q2|]. split; [exact Q3|].
-    split; [|apply Hkfresh; exact Hy]. rewrite Ebelow. intros Hi. apply (Hkfresh y Hy). apply vardecls_allnames. exact Hi. }
+    split; [|apply (proj2 (Hkfresh y Hy))]. rewrite Ebelow. exact (proj1 (Hkfresh y Hy)). }
   { exact Hokk. }
   exists a', fr', rest'. split.
   { cbn [linearise arun astep]. rewrite H1. rewrite arun_app, R2. exact R. }
@@ -252,8 +255,8 @@ Proof.
 Qed.
 
 (* ---- Class without expression name: a block that declares nothing ------------------------------------------------- *)
-Lemma run_ok_class ms k :
-  lexdecls ms = [] -> vardecls ms = [] -> run_ok (Block ms k) -> run_ok (Class None ms k).
+Lemma run_ok_class c ms k :
+  lexdecls ms = [] -> vardecls ms = [] -> run_ok_gen c (Block ms k) -> run_ok_gen c (Class None ms k).
 Proof.
   intros Hl Hv H a fr pr rest A Hnd Hlex Hvar Hndh Hhead Hok.
   destruct (H a fr pr rest A Hnd Hlex) as (a' & fr' & rest' & R & A' & G & P1 & P2 & P3 & P4 & P5 & F & N).
@@ -275,10 +278,10 @@ Lemma grow_rest_trans_nil r1 r2 r3 :
   shape r2 = shape r1 -> grow_rest [] r1 r2 -> grow_rest [] r2 r3 -> grow_rest [] r1 r3.
 Proof. intros Hs H1 H2. exact (grow_rest_trans r1 [] [] r2 r3 Hs H1 H2). Qed.
 
-Lemma run_ok_func ps b k :
+Lemma run_ok_func c ps b k :
   pcore_x ps = true -> headdecls b = [] ->
-  (forall x, In x (headdecls k) -> ~ In x (allnames ps ++ allnames b)) ->
-  run_ok ps -> run_ok b -> run_ok k -> run_ok (Func None ps b k).
+  (c = false -> forall x, In x (headdecls k) -> ~ In x (allnames ps ++ allnames b)) ->
+  run_ok ps -> run_ok b -> run_ok_gen c k -> run_ok_gen c (Func None ps b k).
 Proof.
   intros Hps Hb0 Hkfresh IHps IHb IHk a fr pr rest A Hnd Hlex Hvar Hndh Hhead Hok.
   cbn [lexdecls] in Hnd, Hlex. cbn [vardecls] in Hvar. cbn [headdecls] in Hndh, Hhead. cbn [spec_ok] in Hok.
@@ -287,8 +290,8 @@ Proof.
   apply nodupb_NoDup in Hndp. destruct (scope_ok_spec (headdecls ps) b Hsc) as (Hndb & Hlv & Hlh).
   destruct (pcore_x_lexvar ps Hps) as [Epl Epv].
   (* what the scope promises while the parameter list runs, and from the mark on *)
-  set (prP := mkPr [] (headdecls ps) false).
-  set (prF := mkPr (lexdecls b) (headdecls ps ++ vardecls b) true).
+  set (prP := mkPr [] (headdecls ps) false []).
+  set (prF := mkPr (lexdecls b) (headdecls ps ++ vardecls b) true []).
   assert (EpnP : pnames prP = headdecls ps) by (unfold pnames; cbn [pvar plex prP]; apply app_nil_r).
   assert (Epn : pnames prF = headdecls ps ++ vardecls b ++ lexdecls b).
   { unfold pnames. cbn [pvar plex prF]. rewrite <- app_assoc. reflexivity. }
@@ -300,7 +303,7 @@ Proof.
   (* the parameter list *)
   destruct (IHps a1 F0 prP ((fr, pr) :: rest) A1) as (a2 & F2 & z2 & R2 & A2 & G2 & _ & _ & P3p & P4p & _ & Fp & Np).
   { rewrite Epl. constructor. } { rewrite Epl. intros y []. } { rewrite Epv. intros y []. } { exact Hndp. }
-  { intros y Hy. split; [exact Hy|]. split; intros []. }
+  { intros y Hy. split; [exact Hy|]. split; [intros []|intros _ []]. }
   { exact Hokps. }
   pose proof (grow_shape _ _ _ _ G2) as Hs2. pose proof Hs2 as Hs2full.
   cbn [shape map fst snd] in Hs2. injection Hs2 as HfidF2 HfF2 Hs2.
@@ -354,7 +357,7 @@ Proof.
                     (anext a) (anext a) false (snd RP) b) as RB eqn:HeqRB.
   assert (Hle : (anext a <= snd RB)%nat).
   { rewrite <- N3. destruct A3 as [_ _ An _]. pose proof (An (F', prF) (or_introl eq_refl)) as H. cbn [fst] in H. lia. }
-  destruct (after_scope k [] IHk a fr pr rest a3 F' prF P' rest1 (headdecls ps ++ vardecls b ++ lexdecls b)
+  destruct (after_scope k [] c IHk a fr pr rest a3 F' prF P' rest1 (headdecls ps ++ vardecls b ++ lexdecls b)
               (fst RP ++ fst RB) (snd RB) (allnames ps ++ allnames b) A A3 HfidF'a Epn Hs3z)
     as (a' & fr' & rest' & R & A' & G & P1 & P2 & Pf & P3 & P4 & P5 & F & N).
   { rewrite Eb'. exact Gp. }
@@ -376,7 +379,7 @@ Proof.
   { exact Hvar. }
   { exact Hndh. }
   { intros y Hy. destruct (Hhead y Hy) as (Q1 & Q2 & Q3). split; [exact Q1|]. split; [exact Q2|]. split; [exact Q3|].
-    split; [rewrite Eb'; intros []|apply Hkfresh; exact Hy]. }
+    split; [rewrite Eb'; intros []|intros Hc; apply (Hkfresh Hc); exact Hy]. }
   { exact Hokk. }
   exists a', fr', rest'. split.
   { cbn [linearise app arun astep]. rewrite H1. rewrite arun_app, R2.
@@ -393,11 +396,11 @@ Proof.
 Qed.
 
 (* a function expression with a name: the name is declared first (ExprDecl), in the function's own Scope *)
-Lemma run_ok_func_some g ps b k :
+Lemma run_ok_func_some c g ps b k :
   pcore_x ps = true -> headdecls b = [] ->
   ~ In g (headdecls ps ++ vardecls b ++ lexdecls b) ->
-  (forall x, In x (headdecls k) -> ~ In x (g :: allnames ps ++ allnames b)) ->
-  run_ok ps -> run_ok b -> run_ok k -> run_ok (Func (Some g) ps b k).
+  (c = false -> forall x, In x (headdecls k) -> ~ In x (g :: allnames ps ++ allnames b)) ->
+  run_ok ps -> run_ok b -> run_ok_gen c k -> run_ok_gen c (Func (Some g) ps b k).
 Proof.
   intros Hps Hb0 Hg Hkfresh IHps IHb IHk a fr pr rest A Hnd Hlex Hvar Hndh Hhead Hok.
   cbn [lexdecls] in Hnd, Hlex. cbn [vardecls] in Hvar. cbn [headdecls] in Hndh, Hhead. cbn [spec_ok] in Hok.
@@ -407,8 +410,8 @@ Proof.
   destruct (pcore_x_lexvar ps Hps) as [Epl Epv].
   assert (Hgp : ~ In g (headdecls ps)) by (intros H; apply Hg; apply in_app_iff; left; exact H).
   assert (Hgb : ~ In g (vardecls b ++ lexdecls b)) by (intros H; apply Hg; apply in_app_iff; right; exact H).
-  set (prP := mkPr [g] (headdecls ps) false).
-  set (prF := mkPr (lexdecls b ++ [g]) (headdecls ps ++ vardecls b) true).
+  set (prP := mkPr [g] (headdecls ps) false []).
+  set (prF := mkPr (lexdecls b ++ [g]) (headdecls ps ++ vardecls b) true []).
   assert (EpnP : pnames prP = headdecls ps ++ [g]) by reflexivity.
   assert (Epn : pnames prF = headdecls ps ++ vardecls b ++ lexdecls b ++ [g]).
   { unfold pnames. cbn [pvar plex prF]. rewrite <- app_assoc. reflexivity. }
@@ -433,7 +436,7 @@ Proof.
   { rewrite Epl. constructor. } { rewrite Epl. intros y []. } { rewrite Epv. intros y []. } { exact Hndp. }
   { intros y Hy. split; [exact Hy|]. split.
     - rewrite D3. intros [<-|[]]. apply Hgp. exact Hy.
-    - intros Hi. destruct (D4 _ Hi). }
+    - intros _ Hi. destruct (D4 _ Hi). }
   { exact Hokps. }
   pose proof (grow_shape _ _ _ _ G2) as Hs2. pose proof Hs2 as Hs2full.
   cbn [shape map fst snd] in Hs2. injection Hs2 as HfidF2 HfF2 Hs2.
@@ -495,7 +498,7 @@ Proof.
                     (anext a) (anext a) false (snd RP) b) as RB eqn:HeqRB.
   assert (Hle : (anext a <= snd RB)%nat).
   { rewrite <- N3. destruct A3 as [_ _ An _]. pose proof (An (F', prF) (or_introl eq_refl)) as H. cbn [fst] in H. lia. }
-  destruct (after_scope k [] IHk a fr pr rest a3 F' prF P' rest1 (headdecls ps ++ vardecls b ++ lexdecls b ++ [g])
+  destruct (after_scope k [] c IHk a fr pr rest a3 F' prF P' rest1 (headdecls ps ++ vardecls b ++ lexdecls b ++ [g])
               (TBind (anext a) false g :: fst RP ++ fst RB) (snd RB) (g :: allnames ps ++ allnames b) A A3 HfidF'a Epn Hs3z)
     as (a' & fr' & rest' & R & A' & G & P1 & P2 & Pf & P3 & P4 & P5 & F & N).
   { rewrite Eb'. exact Gp. }
@@ -519,7 +522,7 @@ Proof.
   { exact Hvar. }
   { exact Hndh. }
   { intros y Hy. destruct (Hhead y Hy) as (Q1 & Q2 & Q3). split; [exact Q1|]. split; [exact Q2|]. split; [exact Q3|].
-    split; [rewrite Eb'; intros []|apply Hkfresh; exact Hy]. }
+    split; [rewrite Eb'; intros []|intros Hc; apply (Hkfresh Hc); exact Hy]. }
   { exact Hokk. }
   exists a', fr', rest'. split.
   { cbn [linearise app arun astep]. rewrite H0. cbn [Z.eqb ExprDecl NoDecl]. rewrite H1. rewrite arun_app, R2.
@@ -536,132 +539,106 @@ Proof.
   cbn [fst snd app] in *. split; [|exact N]. rewrite F. cbn [rev]. rewrite !rev_app_distr, <- !app_assoc. reflexivity.
 Qed.
 
-Lemma run_ok_arrow ps b k : run_ok (Func None ps b k) -> run_ok (Arrow ps b k).
+Lemma run_ok_arrow c ps b k : run_ok_gen c (Func None ps b k) -> run_ok_gen c (Arrow ps b k).
 Proof. intros H a fr pr rest. exact (H a fr pr rest). Qed.
 
-(* ---- Catch ----------------------------------------------------------------------------------------------------- *)
-Lemma resolve_catch_params e fs cur n hd :
-  catch_params_only hd = true ->
-  resolve_m e fs cur false n hd = (map (TBind cur false) (headdecls hd), n).
-Proof.
-  induction hd; cbn; intros H; try discriminate; [reflexivity|].
-  destruct d; try discriminate. rewrite (IHhd H). reflexivity.
-Qed.
-
-Lemma catch_params_lin hd : catch_params_only hd = true -> linearise hd = map (EDeclare CatchDecl) (headdecls hd).
-Proof.
-  induction hd; cbn; intros H; try discriminate; [reflexivity|].
-  destruct d; try discriminate. cbn. rewrite (IHhd H). reflexivity.
-Qed.
-
-Lemma catch_params_lexvar hd : catch_params_only hd = true -> lexdecls hd = [] /\ vardecls hd = [].
-Proof.
-  induction hd; cbn; intros H; try discriminate; [split; reflexivity|].
-  destruct d; try discriminate. cbn. apply IHhd. exact H.
-Qed.
-
-Lemma run_catch_params : forall names a fr pr rest,
-  AInv a ((fr, pr) :: rest) -> NoDup names ->
-  (forall x, In x names -> In x (plex pr) /\ ~ In x (dnames fr)) ->
-  exists a' fr',
-    arun a (map (EDeclare CatchDecl) names) = ARun a' /\ AInv a' ((fr', pr) :: rest) /\
-    fid fr' = fid fr /\ fisfunc fr' = fisfunc fr /\ dnames fr' = dnames fr ++ names /\
-    (forall e, In e (fund fr') -> In e (fund fr)) /\
-    anext a' = anext a /\
-    map (final (env_of ((fr, pr) :: rest))) (alog a')
-    = rev (map (TBind (fid fr) false) names) ++ map (final (env_of ((fr, pr) :: rest))) (alog a).
-Proof.
-  induction names as [|x names IH]; intros a fr pr rest A Hnd Hin.
-  - exists a, fr. cbn. rewrite app_nil_r. split; [reflexivity|]. split; [exact A|]. repeat split; try reflexivity. tauto.
-  - inversion Hnd as [|? ? Hx Hnd']; subst. destruct (Hin x (or_introl eq_refl)) as [Hp Hn].
-    destruct (L_decl_top a fr pr rest CatchDecl x A (or_intror (or_intror (or_introl eq_refl))) Hn) as (a1 & fr1 & H1 & A1 & E1 & E2 & E3 & E4 & E5 & E6).
-    { unfold pnames. apply in_app_iff. right. exact Hp. } { intros _. exact Hp. } { discriminate. }
-    destruct (IH a1 fr1 pr rest A1 Hnd') as (a' & fr' & H2 & A' & F1 & F2 & F3 & F4 & F5 & F6).
-    { intros y Hy. destruct (Hin y (or_intror Hy)) as [Hyp Hyn]. split; [exact Hyp|]. rewrite E3. intros Hi. apply in_app_last in Hi.
-      destruct Hi as [Hi| ->]; contradiction. }
-    exists a', fr'. cbn [map arun astep]. unfold NoDecl, CatchDecl in *. cbn [Z.eqb]. rewrite H1. split; [exact H2|]. split; [exact A'|].
-    split; [congruence|]. split; [congruence|]. split; [rewrite F3, E3, <- app_assoc; reflexivity|].
-    split; [intros e He; apply E4; apply F4; exact He|]. split; [congruence|].
-    assert (Eenv : env_of ((fr1, pr) :: rest) = env_of ((fr, pr) :: rest)) by (cbn; rewrite E1; reflexivity).
-    rewrite Eenv in F6. rewrite F6, E6. rewrite E1. cbn [map rev]. rewrite <- app_assoc. reflexivity.
-Qed.
-
+(* ---- Catch: the parameter (a pattern with default values) and the block in ONE Scope, a mark between them ------- *)
 Lemma run_ok_catch hd b k :
-  catch_params_only hd = true -> disjointb (headdecls hd) (vardecls b) = true ->
+  lexdecls hd = [] -> vardecls hd = [] -> disjointb (headdecls hd) (vardecls b) = true ->
   headdecls b = [] -> headdecls k = [] ->
-  run_ok b -> run_ok k -> run_ok (Catch hd b k).
+  run_ok_gen true hd -> run_ok b -> run_ok k -> run_ok (Catch hd b k).
 Proof.
-  intros Hhd Hdisj Hb0 Hk0 IHb IHk a fr pr rest A Hnd Hlex Hvar _ _ Hok.
-  destruct (catch_params_lexvar hd Hhd) as [Ehl Ehv].
+  intros Ehl Ehv Hdisj Hb0 Hk0 IHh IHb IHk a fr pr rest A Hnd Hlex Hvar _ _ Hok.
   cbn [lexdecls] in Hnd, Hlex. cbn [vardecls] in Hvar. rewrite Ehv in Hvar. cbn [app] in Hvar. cbn [spec_ok] in Hok.
   apply andb_true_iff in Hok. destruct Hok as [Hok Hokk]. apply andb_true_iff in Hok. destruct Hok as [Hok Hokb].
-  apply andb_true_iff in Hok. destruct Hok as [Hok _]. apply andb_true_iff in Hok. destruct Hok as [Hndp Hsc].
+  apply andb_true_iff in Hok. destruct Hok as [Hok Hokh]. apply andb_true_iff in Hok. destruct Hok as [Hndp Hsc].
   apply nodupb_NoDup in Hndp. destruct (scope_ok_spec (headdecls hd) b Hsc) as (Hndb & Hlv & Hlh).
   pose proof (disjointb_spec _ _ Hdisj) as Hhv.
-  set (prH := mkPr (headdecls hd) [] false).
-  set (prC := mkPr (headdecls hd ++ lexdecls b) [] true).
+  set (prH := mkPr (headdecls hd) [] false (lexdecls b)).
+  set (prC := mkPr (headdecls hd ++ lexdecls b) [] true []).
   assert (EpnH : pnames prH = headdecls hd) by reflexivity.
+  assert (EpaH : pall prH = headdecls hd ++ lexdecls b) by reflexivity.
   assert (Epn : pnames prC = headdecls hd ++ lexdecls b) by reflexivity.
+  assert (Epa : pall prC = headdecls hd ++ lexdecls b) by (unfold pall; cbn [pfut prC]; rewrite app_nil_r; reflexivity).
   destruct (L_enter a ((fr, pr) :: rest) false prH A) as (a1 & H1 & A1 & El1 & En1).
   { intros y _ []. }
   set (C0 := mkF (anext a) false [] [] O O) in *.
-  destruct (run_catch_params (headdecls hd) a1 C0 prH ((fr, pr) :: rest) A1 Hndp) as (a2 & C2 & R2 & A2 & E1 & E2 & E3 & E4 & En2 & Fp).
-  { intros y Hy. split; [exact Hy|intros []]. }
-  cbn [fid fisfunc C0] in E1, E2. cbn [dnames fdecl C0 map app] in E3. cbn [fund C0] in E4.
-  (* the mark after the catch parameter: nothing has been used yet *)
+  (* the parameter pattern *)
+  destruct (IHh a1 C0 prH ((fr, pr) :: rest) A1) as (a2 & C2 & z2 & R2 & A2 & G2 & _ & _ & P3h & P4h & _ & Fh & Nh).
+  { rewrite Ehl. constructor. } { rewrite Ehl. intros y []. } { rewrite Ehv. intros y []. } { exact Hndp. }
+  { intros y Hy. split; [exact Hy|]. split; [intros []|discriminate]. }
+  { exact Hokh. }
+  pose proof (grow_shape _ _ _ _ G2) as Hs2. pose proof Hs2 as Hs2full.
+  cbn [shape map fst snd] in Hs2. injection Hs2 as HfidC2 HfC2 Hs2.
+  cbn [fid fisfunc C0] in HfidC2, HfC2.
+  assert (Hs2z : shape z2 = shape ((fr, pr) :: rest)) by exact Hs2.
+  destruct G2 as [_ (G2i & G2b & G2r)].
+  assert (Eb0 : below (vardecls hd) (C0, prH) = vardecls hd) by reflexivity. rewrite Eb0, Ehv in G2r.
+  unfold dn in G2i, G2b. cbn [fst dnames fdecl C0 map] in G2i, G2b. rewrite Ehl, Ehv in G2b. cbn [app] in G2b.
+  (* the mark after the parameter: the uses made by its default values are of names other than the parameters *)
   destruct (A_frames _ _ A2) as [KC2 _].
-  destruct (L_mark_gen a2 C2 prH prC ((fr, pr) :: rest) fnfor A2 eq_refl eq_refl (K_for _ _ _ KC2))
+  assert (Hargs : forall y, In (UPend y) (fund C2) -> ~ In y (pnames prH)).
+  { intros y Hy Hin. rewrite EpnH in Hin. apply (K_pend _ _ _ KC2 y Hy). apply P3h. exact Hin. }
+  destruct (L_mark_gen a2 C2 prH prC z2 fnfor A2 eq_refl eq_refl (K_for _ _ _ KC2) Hargs)
     as (a2m & C2m & Hm & A2m & M1 & M2 & M3 & M4 & _ & M5 & M6).
-  { intros y Hy. destruct (E4 _ Hy). }
   { intros y k0 Hy. destruct (K_decl _ _ _ KC2 y k0 Hy) as [Q1 Q2]. split.
     - rewrite EpnH in Q1. rewrite Epn. apply in_app_iff. left. exact Q1.
     - intros Hk. specialize (Q2 Hk). cbn [plex prH prC] in *. apply in_app_iff. left. exact Q2. }
   { intros y _ []. }
-  { intros y fs Hy. destruct (E4 _ Hy). }
-  assert (EdnM : dnames C2m = headdecls hd) by (unfold dnames; rewrite M3; exact E3).
-  assert (EfM : fund C2m = []).
-  { rewrite M4. destruct (fund C2) as [|e l]; [reflexivity|destruct (E4 e (or_introl eq_refl))]. }
-  destruct (IHb a2m C2m prC ((fr, pr) :: rest) A2m Hndb) as (a3 & C' & z1 & R3 & A3 & G3 & P1b & P2b & _ & P4b & P5b & F3 & N3).
-  { intros y Hy. split; [cbn [plex prC]; apply in_app_iff; right; exact Hy|]. rewrite EdnM. apply Hlh. exact Hy. }
-  { intros y Hy. cbn [var_ok]. rewrite M2, E2. split.
-    - unfold pnames. cbn [pvar plex prC app]. intros Hi. apply in_app_iff in Hi. destruct Hi as [Hi|Hi]; [apply (Hhv y Hi Hy)|apply (Hlv y Hi Hy)].
-    - apply Hvar. apply in_app_iff. left. exact Hy. }
+  { intros y fs Hy. destruct (K_pass _ _ _ KC2 y fs Hy) as [_ Hp]. cbn [pass_ok] in Hp. rewrite HfC2 in Hp. rewrite Epa, <- EpaH. exact (proj1 Hp). }
+  assert (EdnM : dnames C2m = dnames C2) by (unfold dnames; rewrite M3; reflexivity).
+  (* the block *)
+  destruct (IHb a2m C2m prC z2 A2m Hndb) as (a3 & C' & z3 & R3 & A3 & G3 & P1b & P2b & _ & P4b & P5b & F3 & N3).
+  { intros y Hy. split; [cbn [plex prC]; apply in_app_iff; right; exact Hy|]. rewrite EdnM. intros Hi.
+    destruct (G2b y Hi) as [[]|[Hi'|[]]]. apply (Hlh y Hy Hi'). }
+  { intros y Hy. cbn [var_ok]. rewrite M2, HfC2. split.
+    - rewrite Epa. intros Hi. apply in_app_iff in Hi. destruct Hi as [Hi|Hi]; [apply (Hhv y Hi Hy)|apply (Hlv y Hi Hy)].
+    - apply (var_ok_shape y ((fr, pr) :: rest)); [symmetry; exact Hs2z|]. apply Hvar. apply in_app_iff. left. exact Hy. }
   { rewrite Hb0. constructor. } { rewrite Hb0. intros y []. }
   { exact Hokb. }
-  pose proof (grow_shape _ _ _ _ G3) as Hs3. cbn [shape map fst snd] in Hs3. injection Hs3 as HfidC HfC Hs3.
-  destruct (shape_cons_inv z1 fr pr rest Hs3) as (P' & rest1 & -> & _ & _ & _).
-  destruct G3 as [_ (G3i & G3b & G3r)]. cbn [grow_rest] in G3r. destruct G3r as [Gp Gr].
-  assert (Eb2 : below (vardecls b) (C2m, prC) = vardecls b) by (unfold below; cbn [fst]; rewrite M2, E2; reflexivity).
-  rewrite Eb2 in Gp. rewrite Eb2 in Gr.
-  assert (Eb' : below (vardecls b) (C', prC) = vardecls b) by (unfold below; cbn [fst]; rewrite HfC, M2, E2; reflexivity).
-  assert (HfidC' : fid C' = anext a) by congruence.
-  assert (Eenv2 : env_of ((C2m, prC) :: (fr, pr) :: rest)
-                  = (anext a, false, headdecls hd ++ lexdecls b) :: env_of ((fr, pr) :: rest)).
-  { cbn [env_of map fst snd]. rewrite M1, E1. reflexivity. }
-  assert (EenvH2 : env_of ((C2, prH) :: (fr, pr) :: rest) = (anext a, false, headdecls hd) :: env_of ((fr, pr) :: rest)).
-  { cbn [env_of map fst snd]. rewrite E1. reflexivity. }
-  assert (Efun2 : func_of ((C2m, prC) :: (fr, pr) :: rest) = func_of ((fr, pr) :: rest)) by (cbn [func_of]; rewrite M2, E2; reflexivity).
-  assert (Eenv0 : env_of ((C0, prH) :: (fr, pr) :: rest)
-                  = (anext a, false, headdecls hd) :: env_of ((fr, pr) :: rest)) by reflexivity.
-  rewrite Eenv0, El1 in Fp. cbn [fid C0] in Fp.
-  rewrite (final_push2 a ((fr, pr) :: rest) (anext a) (headdecls hd) (headdecls hd ++ lexdecls b) A (le_n _)) in Fp.
-  rewrite M5, EenvH2, Fp in F3.
-  rewrite Eenv2, Efun2, M1, E1, M6, En2, En1 in F3, N3.
+  pose proof (grow_shape _ _ _ _ G3) as Hs3. cbn [shape map fst snd] in Hs3. injection Hs3 as HfidC' HfC' Hs3.
+  assert (Hs3z : shape z3 = shape ((fr, pr) :: rest)) by exact (eq_trans Hs3 Hs2).
+  destruct (shape_cons_inv z3 fr pr rest Hs3z) as (P' & rest1 & -> & _ & _ & _).
+  pose proof (func_dnames_mono _ _ _ _ G3) as Hfm. cbn [func_dnames] in Hfm. rewrite M2, HfC2 in Hfm.
+  destruct G3 as [_ (G3i & G3b & G3r)].
+  assert (Eb3 : below (vardecls b) (C2m, prC) = vardecls b) by (unfold below; cbn [fst]; rewrite M2, HfC2; reflexivity). rewrite Eb3 in G3r.
+  pose proof (grow_rest_trans ((fr, pr) :: rest) [] (vardecls b) z2 ((P', pr) :: rest1) Hs2z G2r G3r) as Grest.
+  cbn [app grow_rest] in Grest. destruct Grest as [Gp Gr].
+  assert (HfidC'a : fid C' = anext a) by congruence.
+  assert (HfC'false : fisfunc C' = false) by congruence.
+  rewrite HfC'false in Hfm.
+  assert (Eb' : below (vardecls b) (C', prC) = vardecls b) by (unfold below; cbn [fst]; rewrite HfC'false; reflexivity).
+  (* the environments as the resolver writes them *)
+  assert (Eenv0 : env_of ((C0, prH) :: (fr, pr) :: rest) = (anext a, false, headdecls hd) :: env_of ((fr, pr) :: rest)) by reflexivity.
+  assert (EenvH2 : env_of ((C2, prH) :: z2) = (anext a, false, headdecls hd) :: env_of ((fr, pr) :: rest)).
+  { rewrite (env_of_shape _ _ Hs2full). exact Eenv0. }
+  assert (Eenv2 : env_of ((C2m, prC) :: z2) = (anext a, false, headdecls hd ++ lexdecls b) :: env_of ((fr, pr) :: rest)).
+  { cbn [env_of map fst snd]. rewrite M1, HfidC2, Epn. f_equal. apply (env_of_shape _ _ Hs2z). }
+  assert (Efun2 : func_of ((C2m, prC) :: z2) = func_of ((fr, pr) :: rest)).
+  { cbn [func_of]. rewrite M2, HfC2. apply (func_of_shape _ _ Hs2z). }
+  assert (Efun0 : func_of ((C0, prH) :: (fr, pr) :: rest) = func_of ((fr, pr) :: rest)) by reflexivity.
+  rewrite Eenv0, Efun0, El1, En1 in Fh. rewrite Eenv0, Efun0, En1 in Nh. cbn [fid C0] in Fh, Nh.
+  rewrite (final_push2 a ((fr, pr) :: rest) (anext a) (headdecls hd) (headdecls hd ++ lexdecls b) A (le_n _)) in Fh.
+  remember (resolve_m ((anext a, false, headdecls hd) :: env_of ((fr, pr) :: rest)) (func_of ((fr, pr) :: rest)) (anext a) false (S (anext a)) hd) as RH eqn:HeqRH.
+  rewrite M5, EenvH2, Fh in F3.
+  rewrite Eenv2, Efun2, M1, HfidC2, M6, Nh in F3, N3.
   remember (resolve_m ((anext a, false, headdecls hd ++ lexdecls b) :: env_of ((fr, pr) :: rest))
-                    (func_of ((fr, pr) :: rest)) (anext a) false (S (anext a)) b) as RB eqn:HeqRB.
+                    (func_of ((fr, pr) :: rest)) (anext a) false (snd RH) b) as RB eqn:HeqRB.
   assert (Hle : (anext a <= snd RB)%nat).
   { rewrite <- N3. destruct A3 as [_ _ An _]. pose proof (An (C', prC) (or_introl eq_refl)) as H. cbn [fst] in H. lia. }
-  destruct (after_scope k (vardecls b) IHk a fr pr rest a3 C' prC P' rest1 (headdecls hd ++ lexdecls b)
-              (map (TBind (anext a) false) (headdecls hd) ++ fst RB) (snd RB) (allnames b) A A3 HfidC' Epn Hs3)
+  destruct (after_scope k (vardecls b) false IHk a fr pr rest a3 C' prC P' rest1 (headdecls hd ++ lexdecls b)
+              (fst RH ++ fst RB) (snd RB) (allnames hd ++ allnames b) A A3 HfidC'a Epn Hs3z)
     as (a' & fr' & rest' & R & A' & G & P1 & P2 & Pf & P3 & P4 & P5 & F & N).
   { rewrite Eb'. exact Gp. }
   { rewrite Eb'. exact Gr. }
   { intros y Hy. rewrite Epn in Hy. apply in_app_iff in Hy. destruct Hy as [Hy|Hy].
-    - apply G3i. unfold dn. cbn [fst]. rewrite EdnM. exact Hy.
+    - apply G3i. unfold dn. cbn [fst]. rewrite EdnM. apply P3h. exact Hy.
     - apply P1b. exact Hy. }
-  { intros y [Hy|Hy].
-    - destruct (P4b y Hy) as [H|H]; [rewrite EfM in H; destruct H|exact H].
-    - specialize (P5b y Hy). rewrite EfM in P5b. destruct P5b. }
+  { intros y [Hy|Hy]; apply in_app_iff.
+    - destruct (P4b y Hy) as [H|H]; [|right; exact H]. rewrite M4 in H. destruct (to_args_no_pend _ _ H).
+    - left. specialize (P5b y Hy). rewrite M4 in P5b. destruct (to_args_uarg _ _ P5b) as [H|H].
+      + destruct (P4h y H) as [[]|H']. exact H'.
+      + destruct (no_uarg_unmarked _ _ _ y KC2 eq_refl H). }
   { rewrite F3, rev_app_distr, <- app_assoc. reflexivity. }
   { exact N3. }
   { exact Hle. }
@@ -671,27 +648,27 @@ Proof.
   { rewrite Hk0. constructor. } { rewrite Hk0. intros y []. }
   { exact Hokk. }
   exists a', fr', rest'. split.
-  { cbn [linearise arun astep]. rewrite H1. rewrite arun_app. rewrite (catch_params_lin hd Hhd), R2.
+  { cbn [linearise app arun astep]. rewrite H1. rewrite arun_app, R2.
     cbn [arun astep]. unfold a_mark_catch. rewrite Hm. rewrite arun_app, R3. exact R. }
   split; [exact A'|]. split.
   { cbn [lexdecls headdecls vardecls]. rewrite Ehv. cbn [app]. rewrite Eb' in G. exact G. }
   split; [exact P1|]. split.
   { cbn [vardecls]. rewrite Ehv. cbn [app]. intros y Hy. apply in_app_iff in Hy. destruct Hy as [Hy|Hy]; [|apply P2; exact Hy].
-    apply Pf. specialize (P2b y Hy). cbn [func_dnames] in P2b. rewrite HfC, M2, E2 in P2b. exact P2b. }
+    apply Pf. specialize (P2b y Hy). cbn [func_dnames] in P2b. rewrite HfC'false in P2b. exact P2b. }
   split; [cbn [headdecls]; exact P3|]. split.
   { intros y Hy. cbn [allnames]. destruct (P4 y Hy) as [H|[H|H]]; [left; exact H|right|right].
-    - apply in_app_iff. right. apply in_app_iff. left. exact H.
+    - apply in_app_iff in H. destruct H as [H|H]; [apply in_app_iff; left; exact H|apply in_app_iff; right; apply in_app_iff; left; exact H].
     - apply in_app_iff. right. apply in_app_iff. right. exact H. }
   split; [exact P5|].
-  cbn [resolve_m]. rewrite (resolve_catch_params _ _ _ _ _ Hhd). rewrite <- HeqRB. destruct RB as [rb n1]. cbn [fst snd] in *.
-  destruct (resolve_m (env_of ((fr, pr) :: rest)) (func_of ((fr, pr) :: rest)) (fid fr) false n1 k) as [rk n2].
+  cbn [resolve_m]. rewrite <- HeqRH. destruct RH as [rh n1]. cbn [fst snd] in *. rewrite <- HeqRB. destruct RB as [rb n2]. cbn [fst snd] in *.
+  destruct (resolve_m (env_of ((fr, pr) :: rest)) (func_of ((fr, pr) :: rest)) (fid fr) false n2 k) as [rk n3].
   cbn [fst snd app] in *. split; [|exact N]. rewrite F. rewrite !rev_app_distr, <- !app_assoc. reflexivity.
 Qed.
 
 (* ---- For: loop head and loop body in ONE Scope, MarkForStmt between them -------------------------------------------- *)
 Lemma run_ok_for hd b k :
   headdecls hd = [] -> headdecls b = [] ->
-  (forall x, In x (allnames hd) -> ~ In x (lexdecls b)) ->
+  (forall x, In x (lexdecls hd) -> ~ In x (lexdecls b)) ->
   (forall x, In x (vardecls hd) -> ~ In x (lexdecls hd ++ lexdecls b)) ->
   (forall x, In x (headdecls k) -> ~ In x (allnames hd ++ allnames b)) ->
   run_ok hd -> run_ok b -> run_ok k -> run_ok (For hd b k).
@@ -703,18 +680,20 @@ Proof.
   apply andb_true_iff in Hok. destruct Hok as [Hndh' Hhv]. apply nodupb_NoDup in Hndh'.
   pose proof (disjointb_spec _ _ Hhv) as Hhv'.
   destruct (scope_ok_spec [] b Hsc) as (Hndb & Hlv & _).
-  set (prH := mkPr (lexdecls hd ++ lexdecls b) [] false).
-  set (prB := mkPr (lexdecls hd ++ lexdecls b) [] true).
-  assert (EpnH : pnames prH = lexdecls hd ++ lexdecls b) by reflexivity.
+  set (prH := mkPr (lexdecls hd) [] false (lexdecls b)).
+  set (prB := mkPr (lexdecls hd ++ lexdecls b) [] true []).
+  assert (EpnH : pnames prH = lexdecls hd) by reflexivity.
+  assert (EpaH : pall prH = lexdecls hd ++ lexdecls b) by reflexivity.
+  assert (Epa : pall prB = lexdecls hd ++ lexdecls b) by (unfold pall; cbn [pfut prB]; rewrite app_nil_r; reflexivity).
   assert (Epn : pnames prB = lexdecls hd ++ lexdecls b) by reflexivity.
   destruct (L_enter a ((fr, pr) :: rest) false prH A) as (a1 & H1 & A1 & El1 & En1).
   { intros y _ []. }
   set (B0 := mkF (anext a) false [] [] O O) in *.
   (* the head *)
   destruct (IHh a1 B0 prH ((fr, pr) :: rest) A1 Hndh') as (a2 & B2 & z2 & R2 & A2 & G2 & P1h & P2h & _ & P4h & _ & Fh & Nh).
-  { intros y Hy. split; [cbn [plex prH]; apply in_app_iff; left; exact Hy|intros []]. }
+  { intros y Hy. split; [exact Hy|intros []]. }
   { intros y Hy. cbn [var_ok fisfunc B0]. split.
-    - rewrite EpnH. apply Hvh. exact Hy.
+    - rewrite EpaH. apply Hvh. exact Hy.
     - apply Hvar. apply in_app_iff. left. exact Hy. }
   { rewrite Hh0. constructor. } { rewrite Hh0. intros y []. }
   { exact Hokh. }
@@ -728,25 +707,25 @@ Proof.
   (* MarkForStmt: the uses made by the head are of names the loop scope does not declare *)
   destruct (A_frames _ _ A2) as [KB2 _].
   assert (Hargs : forall y, In (UPend y) (fund B2) -> ~ In y (pnames prH)).
-  { intros y Hy Hin. destruct (P4h y Hy) as [[]|Hall]. rewrite EpnH in Hin. apply in_app_iff in Hin. destruct Hin as [Hin|Hin].
-    - apply (K_pend _ _ _ KB2 y Hy). apply P1h. exact Hin.
-    - apply (Hhb y Hall Hin). }
+  { intros y Hy Hin. rewrite EpnH in Hin. apply (K_pend _ _ _ KB2 y Hy). apply P1h. exact Hin. }
   destruct (L_mark_gen a2 B2 prH prB z2 (fun fr0 => length (fdecl fr0)) A2 eq_refl eq_refl)
     as (a2m & B2m & Hm & A2m & M1 & M2 & M3 & M4 & _ & M5 & M6).
   { intros Hf. rewrite HfB2 in Hf. discriminate. }
   { exact Hargs. }
-  { exact (K_decl _ _ _ KB2). }
+  { intros y k0 Hy. destruct (K_decl _ _ _ KB2 y k0 Hy) as [Q1 Q2]. split.
+    - rewrite EpnH in Q1. rewrite Epn. apply in_app_iff. left. exact Q1.
+    - intros Hk. specialize (Q2 Hk). cbn [plex prH prB] in *. apply in_app_iff. left. exact Q2. }
   { intros y _ []. }
-  { intros y fs Hy. destruct (K_pass _ _ _ KB2 y fs Hy) as [_ Hp]. cbn [pass_ok] in Hp. rewrite HfB2 in Hp. exact (proj1 Hp). }
+  { intros y fs Hy. destruct (K_pass _ _ _ KB2 y fs Hy) as [_ Hp]. cbn [pass_ok] in Hp. rewrite HfB2 in Hp. rewrite Epa, <- EpaH. exact (proj1 Hp). }
   assert (EdnM : dnames B2m = dnames B2) by (unfold dnames; rewrite M3; reflexivity).
   (* the body *)
   destruct (IHb a2m B2m prB z2 A2m Hndb) as (a3 & B' & z3 & R3 & A3 & G3 & P1b & P2b & _ & P4b & P5b & F3 & N3).
   { intros y Hy. split; [cbn [plex prB]; apply in_app_iff; right; exact Hy|]. rewrite EdnM. intros Hi.
     destruct (G2b y Hi) as [[]|[Hi'|Hi']].
-    - apply (Hhb y (lexdecls_allnames hd y Hi') Hy).
-    - apply (Hhb y (vardecls_allnames hd y Hi') Hy). }
+    - apply (Hhb y Hi' Hy).
+    - apply (Hvh y Hi'). apply in_app_iff. right. exact Hy. }
   { intros y Hy. cbn [var_ok]. rewrite M2, HfB2. split.
-    - rewrite Epn. intros Hi. apply in_app_iff in Hi. destruct Hi as [Hi|Hi]; [apply (Hhv' y Hi Hy)|apply (Hlv y Hi Hy)].
+    - rewrite Epa. intros Hi. apply in_app_iff in Hi. destruct Hi as [Hi|Hi]; [apply (Hhv' y Hi Hy)|apply (Hlv y Hi Hy)].
     - apply (var_ok_shape y ((fr, pr) :: rest)); [symmetry; exact Hs2z|]. apply Hvar. apply in_app_iff. right. apply in_app_iff. left. exact Hy. }
   { rewrite Hb0. constructor. } { rewrite Hb0. intros y []. }
   { exact Hokb. }
@@ -764,8 +743,8 @@ Proof.
   assert (Eb' : below (vardecls hd ++ vardecls b) (B', prB) = vardecls hd ++ vardecls b) by (unfold below; cbn [fst]; rewrite HfB'false; reflexivity).
   (* the environments as the resolver writes them *)
   assert (Eenv0 : env_of ((B0, prH) :: (fr, pr) :: rest)
-                  = (anext a, false, lexdecls hd ++ lexdecls b) :: env_of ((fr, pr) :: rest)) by reflexivity.
-  assert (EenvH2 : env_of ((B2, prH) :: z2) = (anext a, false, lexdecls hd ++ lexdecls b) :: env_of ((fr, pr) :: rest)).
+                  = (anext a, false, lexdecls hd) :: env_of ((fr, pr) :: rest)) by reflexivity.
+  assert (EenvH2 : env_of ((B2, prH) :: z2) = (anext a, false, lexdecls hd) :: env_of ((fr, pr) :: rest)).
   { rewrite (env_of_shape _ _ Hs2full). exact Eenv0. }
   assert (Eenv2 : env_of ((B2m, prB) :: z2) = (anext a, false, lexdecls hd ++ lexdecls b) :: env_of ((fr, pr) :: rest)).
   { cbn [env_of map fst snd]. rewrite M1, HfidB2, Epn. f_equal. apply (env_of_shape _ _ Hs2z). }
@@ -773,14 +752,7 @@ Proof.
   { cbn [func_of]. rewrite M2, HfB2. apply (func_of_shape _ _ Hs2z). }
   assert (Efun0 : func_of ((B0, prH) :: (fr, pr) :: rest) = func_of ((fr, pr) :: rest)) by reflexivity.
   rewrite Eenv0, Efun0, El1, En1 in Fh. rewrite Eenv0, Efun0, En1 in Nh. cbn [fid B0] in Fh, Nh.
-  (* the head resolved in the scope of its own declarations only *)
-  assert (Eirr : resolve_m ((anext a, false, lexdecls hd ++ lexdecls b) :: env_of ((fr, pr) :: rest))
-                         (func_of ((fr, pr) :: rest)) (anext a) false (S (anext a)) hd
-                 = resolve_m ((anext a, false, lexdecls hd) :: env_of ((fr, pr) :: rest))
-                         (func_of ((fr, pr) :: rest)) (anext a) false (S (anext a)) hd).
-  { apply (resolve_irrelevant hd [] (anext a) false (lexdecls hd) (lexdecls b)).
-    intros y Hy Hx. exfalso. apply (Hhb y Hy Hx). }
-  rewrite Eirr in Fh, Nh.
+  rewrite (final_push2 a ((fr, pr) :: rest) (anext a) (lexdecls hd) (lexdecls hd ++ lexdecls b) A (le_n _)) in Fh.
   remember (resolve_m ((anext a, false, lexdecls hd) :: env_of ((fr, pr) :: rest)) (func_of ((fr, pr) :: rest)) (anext a) false (S (anext a)) hd) as RH eqn:HeqRH.
   rewrite M5, EenvH2, Fh in F3.
   rewrite Eenv2, Efun2, M1, HfidB2, M6, Nh in F3, N3.
@@ -788,7 +760,7 @@ Proof.
                     (func_of ((fr, pr) :: rest)) (anext a) false (snd RH) b) as RB eqn:HeqRB.
   assert (Hle : (anext a <= snd RB)%nat).
   { rewrite <- N3. destruct A3 as [_ _ An _]. pose proof (An (B', prB) (or_introl eq_refl)) as H. cbn [fst] in H. lia. }
-  destruct (after_scope k (vardecls hd ++ vardecls b) IHk a fr pr rest a3 B' prB P' rest1 (lexdecls hd ++ lexdecls b)
+  destruct (after_scope k (vardecls hd ++ vardecls b) false IHk a fr pr rest a3 B' prB P' rest1 (lexdecls hd ++ lexdecls b)
               (fst RH ++ fst RB) (snd RB) (allnames hd ++ allnames b) A A3 HfidB'a Epn Hs3z)
     as (a' & fr' & rest' & R & A' & G & P1 & P2 & Pf & P3 & P4 & P5 & F & N).
   { rewrite Eb'. exact Gp. }
@@ -810,7 +782,7 @@ Proof.
   { intros y Hy. apply Hvar. apply in_app_iff. right. apply in_app_iff. right. exact Hy. }
   { exact Hndh. }
   { intros y Hy. destruct (Hhead y Hy) as (Q1 & Q2 & Q3). split; [exact Q1|]. split; [exact Q2|]. split; [exact Q3|].
-    split; [|apply Hkfresh; exact Hy]. rewrite Eb'. intros Hi. apply (Hkfresh y Hy). apply in_app_iff in Hi. apply in_app_iff.
+    split; [|intros _; apply Hkfresh; exact Hy]. rewrite Eb'. intros Hi. apply (Hkfresh y Hy). apply in_app_iff in Hi. apply in_app_iff.
     destruct Hi as [Hi|Hi]; [left; apply vardecls_allnames; exact Hi|right; apply vardecls_allnames; exact Hi]. }
   { exact Hokk. }
   exists a', fr', rest'. split.
@@ -841,21 +813,23 @@ Proof.
   split; [intros y Hy; left; exact Hy|]. split; [intros y Hy; exact Hy|]. split; reflexivity.
 Qed.
 
-Theorem run_core_x p : (core_x p = true -> run_ok p) /\ (pcore_x p = true -> run_ok p).
+Theorem run_core_x p : (core_x p = true -> run_ok p) /\ (forall c, hcore_x c p = true -> run_ok_gen c p).
 Proof.
-  induction p; (split; [intros Hc; cbn [core_x] in Hc|intros Hc; cbn [pcore_x] in Hc]); try discriminate.
+  induction p; (split; [intros Hc; cbn [core_x] in Hc|intros c Hc; cbn [hcore_x] in Hc]); try discriminate.
   - exact run_ok_done.
-  - exact run_ok_done.
+  - apply (run_ok_gen_nil false); [reflexivity|exact run_ok_done].
   - (* Ref *)
-    apply run_ok_ref; [rewrite (core_x_headdecls p Hc); intros []|apply (proj1 IHp); exact Hc].
+    apply run_ok_ref; [rewrite (core_x_headdecls p Hc); intros _ []|apply (proj1 IHp); exact Hc].
   - apply andb_true_iff in Hc. destruct Hc as [Hx Hc]. apply run_ok_ref; [|apply (proj2 IHp); exact Hc].
-    apply negb_true_iff in Hx. apply mem_not_in. exact Hx.
+    intros ->. apply negb_true_iff in Hx. apply mem_not_in. exact Hx.
   - (* Decl *)
     apply andb_true_iff in Hc. destruct Hc as [Hd Hc]. pose proof (core_x_headdecls p Hc) as Hk0. destruct d; try discriminate.
     + apply run_ok_var; [left; reflexivity|exact Hk0|apply (proj1 IHp); exact Hc].
     + apply run_ok_var; [right; reflexivity|exact Hk0|apply (proj1 IHp); exact Hc].
     + apply run_ok_lex; [exact Hk0|apply (proj1 IHp); exact Hc].
-  - destruct d; try discriminate. apply run_ok_param. apply (proj2 IHp). exact Hc.
+  - destruct d; try discriminate; destruct c; try discriminate.
+    + apply run_ok_param. apply (proj2 IHp). exact Hc.
+    + apply run_ok_catchparam; [rewrite (proj1 (hcore_x_lexvar true p Hc)); intros []|apply (proj2 IHp); exact Hc].
   - (* Block *)
     apply andb_true_iff in Hc. destruct Hc as [H1 H2].
     apply run_ok_block; [apply core_x_headdecls; exact H1|rewrite (core_x_headdecls p2 H2); intros y []|apply (proj1 IHp1); exact H1|apply (proj1 IHp2); exact H2].
@@ -865,30 +839,30 @@ Proof.
     destruct nm as [g|].
     + apply run_ok_func_some; [exact H1|apply core_x_headdecls; exact H3| | |apply (proj2 IHp1); exact H1|apply (proj1 IHp2); exact H3|apply (proj1 IHp3); exact H4].
       * apply negb_true_iff in H5. apply mem_not_in. exact H5.
-      * rewrite (core_x_headdecls p3 H4). intros y [].
+      * rewrite (core_x_headdecls p3 H4). intros _ y [].
     + apply run_ok_func; [exact H1|apply core_x_headdecls; exact H3| |apply (proj2 IHp1); exact H1|apply (proj1 IHp2); exact H3|apply (proj1 IHp3); exact H4].
-      rewrite (core_x_headdecls p3 H4). intros y [].
-  - (* Func in a parameter list *)
+      rewrite (core_x_headdecls p3 H4). intros _ y [].
+  - (* Func in a parameter list / catch parameter *)
     apply andb_true_iff in Hc. destruct Hc as [Hc H6]. apply andb_true_iff in Hc. destruct Hc as [Hc H5].
     apply andb_true_iff in Hc. destruct Hc as [Hc H4]. apply andb_true_iff in Hc. destruct Hc as [H1 H3].
     destruct nm as [g|].
     + apply andb_true_iff in H6. destruct H6 as [H6 H7].
       apply run_ok_func_some; [exact H1|apply core_x_headdecls; exact H3| | |apply (proj2 IHp1); exact H1|apply (proj1 IHp2); exact H3|apply (proj2 IHp3); exact H5].
       * apply negb_true_iff in H6. apply mem_not_in. exact H6.
-      * intros y Hy [<-|Hin].
+      * intros -> y Hy [<-|Hin].
         -- apply negb_true_iff in H7. apply mem_not_in in H7. apply H7. exact Hy.
         -- apply (disjointb_spec _ _ H4 y Hin Hy).
     + apply run_ok_func; [exact H1|apply core_x_headdecls; exact H3| |apply (proj2 IHp1); exact H1|apply (proj1 IHp2); exact H3|apply (proj2 IHp3); exact H5].
-      intros y Hy Hin. apply (disjointb_spec _ _ H4 y Hin Hy).
+      intros -> y Hy Hin. apply (disjointb_spec _ _ H4 y Hin Hy).
   - (* Arrow in a statement list *)
     apply andb_true_iff in Hc. destruct Hc as [Hc H4]. apply andb_true_iff in Hc. destruct Hc as [H1 H3]. apply run_ok_arrow.
     apply run_ok_func; [exact H1|apply core_x_headdecls; exact H3| |apply (proj2 IHp1); exact H1|apply (proj1 IHp2); exact H3|apply (proj1 IHp3); exact H4].
-    rewrite (core_x_headdecls p3 H4). intros y [].
-  - (* Arrow in a parameter list *)
+    rewrite (core_x_headdecls p3 H4). intros _ y [].
+  - (* Arrow in a parameter list / catch parameter *)
     apply andb_true_iff in Hc. destruct Hc as [Hc H5]. apply andb_true_iff in Hc. destruct Hc as [Hc H4].
     apply andb_true_iff in Hc. destruct Hc as [H1 H3]. apply run_ok_arrow.
     apply run_ok_func; [exact H1|apply core_x_headdecls; exact H3| |apply (proj2 IHp1); exact H1|apply (proj1 IHp2); exact H3|apply (proj2 IHp3); exact H5].
-    intros y Hy Hin. apply (disjointb_spec _ _ H4 y Hin Hy).
+    intros -> y Hy Hin. apply (disjointb_spec _ _ H4 y Hin Hy).
   - (* For *)
     apply andb_true_iff in Hc. destruct Hc as [Hc H5]. apply andb_true_iff in Hc. destruct Hc as [Hc H4].
     apply andb_true_iff in Hc. destruct Hc as [Hc H3]. apply andb_true_iff in Hc. destruct Hc as [H1 H2].
@@ -897,20 +871,20 @@ Proof.
     rewrite (core_x_headdecls p3 H3). intros y [].
   - (* Catch *)
     apply andb_true_iff in Hc. destruct Hc as [Hc H4]. apply andb_true_iff in Hc. destruct Hc as [Hc H3].
-    apply andb_true_iff in Hc. destruct Hc as [H1 H2].
-    apply run_ok_catch; [exact H1|exact H2|apply core_x_headdecls; exact H3|apply core_x_headdecls; exact H4|apply (proj1 IHp2); exact H3|apply (proj1 IHp3); exact H4].
+    apply andb_true_iff in Hc. destruct Hc as [H1 H2]. destruct (hcore_x_lexvar true p1 H1) as [E1 E2].
+    apply run_ok_catch; [exact E1|exact E2|exact H2|apply core_x_headdecls; exact H3|apply core_x_headdecls; exact H4|apply (proj2 IHp1); exact H1|apply (proj1 IHp2); exact H3|apply (proj1 IHp3); exact H4].
   - (* Class in a statement list *)
     destruct nm; [discriminate|]. apply andb_true_iff in Hc. destruct Hc as [Hc H4]. apply andb_true_iff in Hc. destruct Hc as [Hc H3].
     apply andb_true_iff in Hc. destruct Hc as [H1 H2]. apply is_nil_eq in H2. apply is_nil_eq in H3.
     apply run_ok_class; [exact H2|exact H3|].
     apply run_ok_block; [apply core_x_headdecls; exact H1|rewrite (core_x_headdecls p2 H4); intros y []|apply (proj1 IHp1); exact H1|apply (proj1 IHp2); exact H4].
-  - (* Class in a parameter list *)
+  - (* Class in a parameter list / catch parameter *)
     destruct nm; [discriminate|]. apply andb_true_iff in Hc. destruct Hc as [Hc H5]. apply andb_true_iff in Hc. destruct Hc as [Hc H4].
     apply andb_true_iff in Hc. destruct Hc as [Hc H3]. apply andb_true_iff in Hc. destruct Hc as [H1 H2].
     apply is_nil_eq in H2. apply is_nil_eq in H3.
     apply run_ok_class; [exact H2|exact H3|].
     apply run_ok_block; [apply core_x_headdecls; exact H1| |apply (proj1 IHp1); exact H1|apply (proj2 IHp2); exact H5].
-    intros y Hy Hin. apply (disjointb_spec _ _ H4 y Hin Hy).
+    intros y Hy. split; [rewrite H3; intros []|]. intros -> Hin. apply (disjointb_spec _ _ H4 y Hin Hy).
 Qed.
 
 Corollary run_core p : core_x p = true -> run_ok p.
